@@ -331,7 +331,34 @@ func vfSweep(cfg *SubscriberGroupsConfig) string {
 			d = fmt.Sprintf("%d:%d:lookup=%s:harnessref=%s", f.s, f.c, ctx.name(f.im), ctx.name(f.rf))
 		}
 	}
-	return fmt.Sprintf("md5=%x hits=%d rowruns=%d diff=%s", md5.Sum([]byte(tb.String())), total, nruns, d)
+	// Lookup takes uint16.  An S-VLAN above 4095 names no VLAN and must miss; a C-VLAN above 4095 is named by no exact
+	// selector, so it is answered like the untagged pair (wildcard of that S-VLAN or nothing).  A key that drops or masks
+	// bits 12-15 of either component would alias these onto 0..4095.
+	high := "ok"
+	cset := []uint16{0, 1, 100, 4094}
+	for _, rr := range ctx.ref {
+		if !rr.any && len(cset) < 14 {
+			cset = append(cset, rr.cv)
+		}
+	}
+	for s := 0; s < 4096 && high == "ok"; s++ {
+		m0, ok0 := idx.Lookup(uint16(s), 0)
+		t0 := ctx.tokenOf(m0, ok0)
+		for _, k := range []int{1, 2, 7, 15} {
+			for _, c := range cset {
+				if _, ok := idx.Lookup(uint16(s+4096*k), c); ok {
+					high = fmt.Sprintf("%d:%d:matched", s+4096*k, c)
+				}
+				if _, ok := idx.Lookup(uint16(s+4096*k), uint16(int(c)+4096*(16-k))); ok {
+					high = fmt.Sprintf("%d:%d:matched", s+4096*k, int(c)+4096*(16-k))
+				}
+				if m, ok := idx.Lookup(uint16(s), uint16(int(c)+4096*k)); ctx.tokenOf(m, ok) != t0 {
+					high = fmt.Sprintf("%d:%d:not-the-untagged-answer", s, int(c)+4096*k)
+				}
+			}
+		}
+	}
+	return fmt.Sprintf("md5=%x hits=%d rowruns=%d diff=%s high=%s", md5.Sum([]byte(tb.String())), total, nruns, d, high)
 }
 
 func (ctx *vfSweepCtx) name(id int) string {
@@ -431,6 +458,51 @@ func vfCase(f []string) (res string) {
 	case "sweep":
 		cfg, _ := vfReadConfig(f, 1)
 		return vfValidate(cfg) + " ; " + vfSweep(cfg)
+	case "gpn":
+		// group.go's S-VLAN-only helpers, called: SubscriberGroup.GetPolicyName / FindVLANConfig / VLANRange.MatchesSVLAN
+		// gpn <G> {<name> <gpol> <gacc> <R> {<sv> <cv> <rpol> <acc>}} <Q> {<s> <c>}: per query, per group in case order
+		ng, _ := strconv.Atoi(f[1])
+		p := 2
+		var grps []*SubscriberGroup
+		for i := 0; i < ng; i++ {
+			g := &SubscriberGroup{AAAPolicy: vfDecode(f[p+1])}
+			nr, _ := strconv.Atoi(f[p+3])
+			p += 4
+			for j := 0; j < nr; j++ {
+				vr := VLANRange{SVLAN: vfDecode(f[p]), CVLAN: vfDecode(f[p+1])}
+				if pol := vfDecode(f[p+2]); pol != "" {
+					vr.AAA = &VLANAAAs{Policy: pol}
+				}
+				g.VLANs = append(g.VLANs, vr)
+				p += 4
+			}
+			grps = append(grps, g)
+		}
+		nq, _ := strconv.Atoi(f[p])
+		p++
+		var out []string
+		for q := 0; q < nq; q++ {
+			sv, _ := strconv.Atoi(f[p])
+			p += 2
+			for _, g := range grps {
+				pol := g.GetPolicyName(uint16(sv))
+				vr := g.FindVLANConfig(uint16(sv))
+				idx, first := -1, -1
+				for i := range g.VLANs {
+					if vr == &g.VLANs[i] {
+						idx = i
+					}
+					if first == -1 && g.VLANs[i].MatchesSVLAN(uint16(sv)) {
+						first = i
+					}
+				}
+				if first != idx {
+					idx = -2 // FindVLANConfig is not the first range MatchesSVLAN accepts
+				}
+				out = append(out, vfEncode(pol)+"@"+strconv.Itoa(idx))
+			}
+		}
+		return strings.Join(out, " ")
 	case "runes":
 		lo, _ := strconv.Atoi(f[2])
 		hi, _ := strconv.Atoi(f[3])
